@@ -39,6 +39,9 @@ class GuardList(list):
             a = single_atom(c)
             if a is not None and atom_fn(a) == "not" and isinstance(atom_args(a)[0], Poly):
                 c, pol = atom_args(a)[0], not pol
+            elif a is not None and atom_fn(a) == "matches" and atom_args(a)[1] in ("True", "False") and isinstance(atom_args(a)[0], Poly):
+                # match b { true => .., false => .. }: the arm conditions are b and !b
+                c, pol = atom_args(a)[0], (pol if atom_args(a)[1] == "True" else not pol)
             else:
                 break
         super().append((c, pol))
@@ -142,6 +145,8 @@ class Tracer(SymEval):
                 return ("enumerate", self.iter_desc(it["recv"], env))
             if m == "rev":
                 return ("rev", self.iter_desc(it["recv"], env))
+            if m in ("windows", "chunks_exact") and len(it.get("args", [])) == 1 and (it.get("def") or "").startswith("core::slice::"):
+                return (m, self.eval(it["recv"], env), self.eval(it["args"][0], env))
             if m in ("copied", "cloned") and "Option" not in (it.get("def") or ""):
                 return self.iter_desc(it["recv"], env)      # same elements by value
             if m in ("map", "filter", "filter_map", "zip", "skip", "step_by", "take", "flat_map", "take_while", "map_while", "skip_while"):
@@ -166,8 +171,11 @@ class Tracer(SymEval):
         if kind == "map":
             inner = self.elem_value(desc[1], hint)
             return self.apply(desc[2], [inner])
-        if kind in ("filter", "skip", "step_by", "take"):
+        if kind in ("filter", "skip", "step_by", "take", "take_while", "skip_while"):
             return self.elem_value(desc[1], hint)
+        if kind in ("windows", "chunks_exact"):
+            # a sub-slice of exactly desc[2] consecutive elements
+            return app("window", desc[1], desc[2], var(hint))
         if kind == "zip":
             other = desc[2]
             return ("tuple", [self.elem_value(desc[1], hint), app("elem", other, var(hint + "_z"))])
@@ -576,7 +584,7 @@ class Tracer(SymEval):
         return app("matches", v, repr(pat_key(n["pat"])))
 
     ITER_METHODS = ("iter", "iter_mut", "into_iter", "map", "filter", "filter_map", "enumerate", "rev", "zip",
-                    "skip", "step_by", "take", "flat_map", "copied", "cloned", "take_while", "map_while", "skip_while")
+                    "skip", "step_by", "take", "flat_map", "copied", "cloned", "take_while", "map_while", "skip_while", "windows", "chunks_exact")
 
     def e_mcall(self, n, env):
         if n["m"] == "next" and not n["args"] and (n.get("def") or "").endswith("Iterator::next"):
@@ -591,10 +599,12 @@ class Tracer(SymEval):
                     env[nm] = ("iterdesc", ("skip", d, num(1)))
                 return app("std::iter::Iterator::next", cur)
         if n["m"] in self.ITER_METHODS and not (n.get("def") or "").startswith(("sparse::", "codes::")) and \
-                ("Iter" in n.get("ty", "") or "iter::" in n.get("ty", "")):
+                ("Iter" in n.get("ty", "") or "iter::" in n.get("ty", "") or "slice::Windows" in n.get("ty", "") or "slice::Chunks" in n.get("ty", "")):
             d = ("iterdesc", self.iter_desc(n, env))
             if n["m"] == "iter_mut":
                 self.mutated(n["recv"], env)
+            if n["m"] in ("windows", "chunks_exact") and hasattr(self, "site") and d[1][0] == n["m"]:
+                self.site("call", n, n.get("def") or n["m"], [d[1][1], d[1][2]])      # panics on a zero size: audited like any call
             return d
         return super().e_mcall(n, env)
 
